@@ -160,6 +160,7 @@ func init() {
 			ruleInvalidNeverRuns(c, d)
 			ruleInvokeSites(c, d)
 			c.Clause("C02-D3")
+			ruleMemberNamesExact(c)
 			ruleNullErrorIsAbsent(c)
 			ruleNullIsAbsent(c, d)
 			ruleIDHandling(c)
@@ -190,6 +191,8 @@ func init() {
 			c.Clause("C13-D2")
 			ruleEncoderWrites(c)
 			ruleEncoderOneOf(c)
+			ruleParamsShapeOnEncodedBytes(c)
+			ruleNoSharedEncoderBuffers(c)
 			ruleMarshalOutputImmutable(c)
 			ruleMemberLoopOrderIndependent(c)
 			ruleConstantFormats(c)
